@@ -405,10 +405,15 @@ def cmd_setup():
         if key in seen:
             continue
         seen.add(key)
-        ov, _, _ = make_overlay(workdir, cfg.get("instrument", ()), patches=cfg.get("patches"))
-        go_build(workdir, ov, cfg["cmd"])
-        if cfg.get("race"):
-            go_build(workdir, ov_plain(workdir, cfg.get("patches")), cfg["cmd"], race=True)
+        try:
+            ov, _, _ = make_overlay(workdir, cfg.get("instrument", ()), patches=cfg.get("patches"))
+            go_build(workdir, ov, cfg["cmd"])
+            if cfg.get("race"):
+                go_build(workdir, ov_plain(workdir, cfg.get("patches")), cfg["cmd"], race=True)
+        except Exception as e:
+            if cfg.get("ready"):
+                raise
+            print("setup: skipping unfinished check %s: %s" % (prop, str(e)[:200]))
     shutil.rmtree(workdir, ignore_errors=True)
     print("setup ok (%.0fs)" % (time.time() - t0))
     return 0
